@@ -11,7 +11,6 @@ use crate::proto::*;
 use hpo::annotations::AnnotationId;
 use hpo::stats::hypergeom::{gene_enrichment, omim_disease_enrichment, orpha_disease_enrichment};
 use hpo::stats::Linkage;
-use hpo::term::HpoGroup;
 use hpo::utils::Combinations;
 use hpo::{HpoSet, HpoTerm, Ontology};
 use std::cell::RefCell;
@@ -56,7 +55,7 @@ pub fn exec(it: &mut Interp, toks: &[&str], out: &mut Vec<String>) -> bool {
             };
             let o = b.build_minimal();
             let smp: Vec<u32> = (1..=k).chain(big_k + 1..=big_k + (n - k)).collect();
-            let sample = HpoSet::new(&o, HpoGroup::from(smp));
+            let sample = HpoSet::new(&o, crate::ext::mk_group(&smp));
             let recs = gene_enrichment(&o, &sample);
             out.push(format!("ENR N={} n={} records={}", o.len(), sample.len(), recs.len()));
             for e in &recs {
@@ -112,8 +111,8 @@ fn ann_ids(t: &HpoTerm<'_>, kind: usize) -> Vec<u32> {
 }
 
 fn enrich(o: &Ontology, kind: usize, bg_ids: Option<Vec<u32>>, smp: Vec<u32>, out: &mut Vec<String>) {
-    let sample = HpoSet::new(o, HpoGroup::from(smp));
-    let bgset = bg_ids.map(|v| HpoSet::new(o, HpoGroup::from(v)));
+    let sample = HpoSet::new(o, crate::ext::mk_group(&smp));
+    let bgset = bg_ids.map(|v| HpoSet::new(o, crate::ext::mk_group(&v)));
     macro_rules! collect {
         ($f:ident) => {{
             let v = match &bgset {
@@ -156,6 +155,42 @@ fn enrich(o: &Ontology, kind: usize, bg_ids: Option<Vec<u32>>, smp: Vec<u32>, ou
         }
     }
     let mut fails: Vec<String> = vec![];
+    // the functions take any `IntoIterator<Item = HpoTerm>`: the same terms handed over as vectors
+    // (exact size hints) and as filtered walks over the whole ontology (size hints far above the
+    // number of terms yielded) give the same records, bit for bit
+    {
+        let smp_ids: BTreeSet<u32> = sample.iter().map(|t| t.id().as_u32()).collect();
+        let bg_idset: BTreeSet<u32> = bg_terms.iter().map(|t| t.id().as_u32()).collect();
+        macro_rules! again {
+            ($f:ident, $bg:expr, $smp:expr) => {{
+                let mut v: Vec<(u32, u64, u64, u64)> =
+                    $f($bg, $smp).iter().map(|e| (e.id().as_u32(), e.count(), e.pvalue().to_bits(), e.enrichment().to_bits())).collect();
+                v.sort_unstable();
+                v
+            }};
+        }
+        let first: Vec<(u32, u64, u64, u64)> = recs.iter().map(|r| (r.id, r.count, r.p.to_bits(), r.fold.to_bits())).collect();
+        let smp_vec: Vec<HpoTerm<'_>> = sample.iter().collect();
+        let as_vec = match kind {
+            0 => again!(gene_enrichment, bg_terms.clone(), smp_vec.clone()),
+            1 => again!(omim_disease_enrichment, bg_terms.clone(), smp_vec.clone()),
+            _ => again!(orpha_disease_enrichment, bg_terms.clone(), smp_vec.clone()),
+        };
+        // (a filtered walk over a VECTOR of all terms: its size hint has an upper bound, the number
+        // of all terms, which is not the number of terms yielded)
+        let all: Vec<HpoTerm<'_>> = o.hpos().collect();
+        let as_filter = match kind {
+            0 => again!(gene_enrichment, all.clone().into_iter().filter(|t| bg_idset.contains(&t.id().as_u32())), all.clone().into_iter().filter(|t| smp_ids.contains(&t.id().as_u32()))),
+            1 => again!(omim_disease_enrichment, all.clone().into_iter().filter(|t| bg_idset.contains(&t.id().as_u32())), all.clone().into_iter().filter(|t| smp_ids.contains(&t.id().as_u32()))),
+            _ => again!(orpha_disease_enrichment, all.clone().into_iter().filter(|t| bg_idset.contains(&t.id().as_u32())), all.clone().into_iter().filter(|t| smp_ids.contains(&t.id().as_u32()))),
+        };
+        if as_vec != first {
+            fails.push("terms-handed-over-as-vectors-give-other-records".to_string());
+        }
+        if as_filter != first {
+            fails.push("terms-handed-over-as-filtered-iterators-give-other-records".to_string());
+        }
+    }
     let got: Vec<u32> = recs.iter().map(|r| r.id).collect();
     let want: Vec<u32> = k_smp.keys().copied().collect();
     if got != want {
@@ -248,7 +283,7 @@ fn show_pair(p: &(Vec<u32>, Vec<u32>)) -> String {
 
 fn link(o: &Ontology, m: &str, tids: &[Vec<u32>], table: &[u32], out: &mut Vec<String>) {
     let n = tids.len();
-    let sets: Vec<HpoSet<'_>> = tids.iter().map(|i| HpoSet::new(o, HpoGroup::from(i.clone()))).collect();
+    let sets: Vec<HpoSet<'_>> = tids.iter().map(|i| HpoSet::new(o, crate::ext::mk_group(i))).collect();
     let log: RefCell<Vec<Vec<(Vec<u32>, Vec<u32>)>>> = RefCell::new(vec![]);
     let distance = |combs: Combinations<HpoSet<'_>>| -> Vec<f32> {
         let mut call = vec![];
